@@ -73,14 +73,21 @@ var contracts = map[string]*Contract{
 	"(*" + pEtree + ".Document).WriteToString": {Fresh: true, Note: "serialises"},
 	pRT + ".Validate":                          {Note: "total: error or success, no panic"},
 	// --- std: time
-	"time.Parse":          {Fresh: true, Det: true, Note: "RFC3339 accepts offsets and fractional seconds, errors otherwise"},
-	"(time.Time).Before":  {Det: true, Note: "strict instant comparison, zone-independent"},
-	"(time.Time).After":   {Det: true, Note: "strict instant comparison, zone-independent"},
-	"(time.Time).Compare": {Det: true, Note: "-1 / 0 / +1 by instant, zone-independent"},
-	"(time.Time).Equal":   {Det: true, Note: "instant equality, zone-independent"},
-	"(time.Time).UTC":     {Det: true},
-	"(time.Time).Add":     {Det: true},
-	"(time.Time).Format":  {Det: true},
+	"time.Parse":                   {Fresh: true, Det: true, Note: "RFC3339 accepts offsets and fractional seconds, errors otherwise"},
+	"(time.Time).Before":           {Det: true, Note: "strict instant comparison, zone-independent"},
+	"(time.Time).After":            {Det: true, Note: "strict instant comparison, zone-independent"},
+	"(time.Time).Compare":          {Det: true, Note: "-1 / 0 / +1 by instant, zone-independent"},
+	"(time.Time).Equal":            {Det: true, Note: "instant equality, zone-independent"},
+	"(time.Time).UTC":              {Det: true},
+	"time.Now":                     {Note: "reads the wall clock; touches nothing else"},
+	"time.Since":                   {Note: "time.Now().Sub(t)"},
+	"time.Until":                   {Note: "t.Sub(time.Now())"},
+	"(time.Time).Sub":              {Det: true},
+	"(time.Duration).String":       {Det: true},
+	"(time.Duration).Seconds":      {Det: true},
+	"(time.Duration).Milliseconds": {Det: true},
+	"(time.Time).Add":              {Det: true},
+	"(time.Time).Format":           {Det: true},
 	// --- std: fmt / errors / strings / bytes
 	"fmt.Errorf":                                   {Fresh: true, NonNil: []int{0}, Note: "non-nil error"},
 	"errors.New":                                   {Fresh: true, NonNil: []int{0}, Note: "non-nil error"},
